@@ -398,6 +398,17 @@ func ParseNameAddrPVal(h HdrT, buf []byte, offs int, pfrom *PFromBody) (int, Err
 				} else {
 					pfrom.state = fbNewPossibleParam
 				}
+			case ',':
+				// whitespace between a param name and the next value,
+				// e.g.: <sip:foo>;p , <sip:bar>
+				if multipleValsOk(h) {
+					retOkErr = ErrHdrMoreValues
+					n = i
+					crl = 1
+					i = pfrom.pend // value end: before the whitespace
+					goto endOfHdr
+				}
+				return i, ErrHdrBadChar
 			default:
 				// no other char allowed after a param name token
 				// (the whitespace was already skipped in fb*ParamName)
@@ -491,6 +502,17 @@ func ParseNameAddrPVal(h HdrT, buf []byte, offs int, pfrom *PFromBody) (int, Err
 					pfrom.state = fbNewPossibleParam
 					setFromParamVal(buf, pfrom)
 				}
+			case ',':
+				// whitespace between a param value and the next value,
+				// e.g.: <sip:foo>;p=v , <sip:bar>
+				if multipleValsOk(h) {
+					retOkErr = ErrHdrMoreValues
+					n = i
+					crl = 1
+					i = pfrom.vend // value end: before the whitespace
+					goto endOfHdr
+				}
+				return i, ErrHdrBadChar
 			default:
 				// no other char allowed after a param value token
 				return i, ErrHdrBadChar
